@@ -400,8 +400,8 @@ func (c *checker) checkDiagram(d Diagram, text string) {
 		}
 		if g < w {
 			deficit[p.s] += w - g
-			c.report("edge-missing|"+c.pairTrigger(p.s, p.t, wraps[p]),
-				"%s: %d relationship line(s) from %s to %s, but %d field(s) of %s refer to it", d.Name, g, p.s.Full(), p.t.Full(), w, p.s.Full())
+			c.report("edge-missing|"+c.pairTrigger(p.s, p.t, wraps[p], w),
+				"%s: %d relationship line(s) from %s to %s, but %d field(s) of %s refer to it (%s)", d.Name, g, p.s.Full(), p.t.Full(), w, p.s.Full(), wrapList(wraps[p]))
 		} else {
 			c.report("edge-extra|"+c.extraTrigger(p.s, p.t, drawn),
 				"%s: %d relationship line(s) from %s to %s, but only %d field(s) of %s refer to it", d.Name, g, p.s.Full(), p.t.Full(), w, p.s.Full())
@@ -424,6 +424,15 @@ func (c *checker) checkDiagram(d Diagram, text string) {
 	}
 }
 
+func wrapList(m map[string]bool) string {
+	var ws []string
+	for w := range m {
+		ws = append(ws, w)
+	}
+	sort.Strings(ws)
+	return strings.Join(ws, "+")
+}
+
 func kindTag(t *Type) string {
 	if t.Nested() {
 		return t.Kind.String() + "|nested"
@@ -431,26 +440,26 @@ func kindTag(t *Type) string {
 	return t.Kind.String()
 }
 
-// pairTrigger names the class of a missing relationship by the facts of the case.
-func (c *checker) pairTrigger(s, t *Type, wraps map[string]bool) string {
+// pairTrigger names the class of a missing relationship by the facts of the case: the
+// kinds of the two ends, whether a table refers through a collection, whether the target
+// is a nested type, whether several fields point at the target, whether it is the type itself.
+func (c *checker) pairTrigger(s, t *Type, wraps map[string]bool, n int) string {
 	switch {
+	case s.Kind == KTable && (wraps["set"] || wraps["sequence"] || wraps["list"]):
+		return "table-collection-field"
 	case s.Kind == KTuple && t.Kind == KPAlias:
 		return "tuple-to-primitive-alias"
 	case s.Kind == KTuple && t.Kind == KTable:
 		return "tuple-to-table"
 	case s.Kind == KTable && t.Kind != KTable:
 		return "table-to-" + t.Kind.String()
-	case s.Kind == KTable && (wraps["set"] || wraps["sequence"] || wraps["list"]):
-		return "table-collection-field"
 	case t.Nested():
 		return "target-nested-type"
 	}
-	var ws []string
-	for w := range wraps {
-		ws = append(ws, w)
+	tag := s.Kind.String() + "-to-" + t.Kind.String()
+	if n >= 2 {
+		tag += "|multi-ref"
 	}
-	sort.Strings(ws)
-	tag := s.Kind.String() + "-to-" + t.Kind.String() + "|" + strings.Join(ws, "+")
 	if s == t {
 		tag += "|self"
 	}
